@@ -19,8 +19,15 @@ def main():
     patch = os.path.join(seed, "patch.diff")
     demo = os.path.join(seed, "demo.py")
     res = {"seed": os.path.basename(seed), "property": meta["property"]}
+    old = os.path.join(seed, "result.json")
+    if os.path.exists(old):
+        prev = json.load(open(old))
+        for k in ("applies", "demo_without", "demo_with", "suite_with_patch"):
+            if k in prev:
+                res[k] = prev[k]
+        res["checks_history"] = prev.get("checks_history", []) + ([prev["checks"]] if prev.get("checks") else [])
     assert sh("git -C /repo status --porcelain").stdout.strip() == "", "/repo not clean"
-    if "--skip-confirm" not in sys.argv and not meta.get("confirmed"):
+    if "--skip-confirm" not in sys.argv and "demo_with" not in res:
         wt = tempfile.mkdtemp(prefix="seedwt_", dir="/tmp")
         shutil.rmtree(wt)
         try:
